@@ -18,6 +18,143 @@ LEVEL_TEXT = (
     "and permutation equivariance as values are not decided.")
 
 
+def _template(w):
+    """Symbolic value of the string returned by xyz_str: a list of pieces
+    ('lit', text) | ('hole', expr, format spec) | ('alt',) for branches that
+    disagree | ('rep', pieces, {loop var: 'atom_type'|'coords'}).  None when
+    the builder is not followed."""
+    env: dict[str, list] = {}
+
+    class Unknown(Exception):
+        pass
+
+    def loop_roles(target, it):
+        if not (isinstance(it, ast.Call) and call_name(it) == "zip"
+                and [norm(a) for a in it.args] == ["self.atom_types",
+                                                   "self.coords"]
+                and isinstance(target, ast.Tuple) and len(target.elts) == 2
+                and all(isinstance(t, ast.Name) for t in target.elts)):
+            raise Unknown
+        return {target.elts[0].id: "atom_type", target.elts[1].id: "coords"}
+
+    def val(e, roles=None):
+        if isinstance(e, ast.Constant) and isinstance(e.value, str):
+            return [("lit", e.value)]
+        if isinstance(e, ast.JoinedStr):
+            out = []
+            for v in e.values:
+                if isinstance(v, ast.Constant):
+                    out.append(("lit", v.value))
+                else:
+                    spec = None
+                    if v.format_spec is not None:
+                        spec = "".join(x.value for x in v.format_spec.values
+                                       if isinstance(x, ast.Constant))
+                    out.append(("hole", v.value, spec))
+            return out
+        if isinstance(e, ast.BinOp) and isinstance(e.op, ast.Add):
+            return val(e.left, roles) + val(e.right, roles)
+        if isinstance(e, ast.Name):
+            if e.id in env:
+                return list(env[e.id])
+            return [("hole", e, None)]
+        if isinstance(e, ast.Call) and call_name(e) == "str":
+            return [("hole", e, None)]
+        if isinstance(e, ast.Call) and isinstance(e.func, ast.Attribute) and \
+                e.func.attr == "join" and len(e.args) == 1:
+            sep = val(e.func.value)
+            arg = e.args[0]
+            if isinstance(arg, ast.Name) and arg.id in env:
+                inner = env[arg.id]
+                if len(inner) == 1 and inner[0][0] == "replist":
+                    return [("rep", inner[0][1] + sep, inner[0][2])]
+                raise Unknown
+            if isinstance(arg, (ast.ListComp, ast.GeneratorExp)):
+                return [("rep", comp(arg)[0][1] + sep, comp(arg)[0][2])]
+            raise Unknown
+        if isinstance(e, (ast.ListComp, ast.GeneratorExp)):
+            return comp(e)
+        raise Unknown
+
+    def comp(c):
+        if len(c.generators) != 1 or c.generators[0].ifs:
+            raise Unknown
+        roles = loop_roles(c.generators[0].target, c.generators[0].iter)
+        return [("replist", val(c.elt), roles)]
+
+    def merge(a, b):
+        if a == b:
+            return a
+        na = sum(p[1].count("\n") for p in a if p[0] == "lit")
+        nb = sum(p[1].count("\n") for p in b if p[0] == "lit")
+        if na == nb and not any(p[0] in ("rep", "replist") for p in a + b):
+            # same number of lines on both branches: keep the longer spelling
+            return a if len(a) >= len(b) else b
+        return [("alt",)]
+
+    def run(stmts):
+        for st in stmts:
+            if isinstance(st, ast.Expr) and isinstance(st.value, ast.Constant):
+                continue
+            if isinstance(st, ast.Assign) and len(st.targets) == 1 and \
+                    isinstance(st.targets[0], ast.Name):
+                env[st.targets[0].id] = val(st.value)
+            elif isinstance(st, ast.AnnAssign) and isinstance(
+                    st.target, ast.Name) and st.value is not None:
+                env[st.target.id] = val(st.value)
+            elif isinstance(st, ast.AugAssign) and isinstance(
+                    st.op, ast.Add) and isinstance(st.target, ast.Name):
+                env[st.target.id] = env.get(st.target.id, []) + val(st.value)
+            elif isinstance(st, ast.If):
+                before = {k: list(v) for k, v in env.items()}
+                r1 = run(st.body)
+                e1 = {k: list(v) for k, v in env.items()}
+                env.clear(); env.update(before)
+                r2 = run(st.orelse)
+                if r1 is not None or r2 is not None:
+                    raise Unknown
+                for k in set(e1) | set(env):
+                    pre = before.get(k, [])
+                    a, b = e1.get(k, pre), env.get(k, pre)
+                    if a[:len(pre)] == pre and b[:len(pre)] == pre:
+                        env[k] = pre + merge(a[len(pre):], b[len(pre):])
+                    else:
+                        env[k] = merge(a, b)
+            elif isinstance(st, ast.For):
+                roles = loop_roles(st.target, st.iter)
+                acc = {}
+                for b in st.body:
+                    if isinstance(b, ast.AugAssign) and isinstance(
+                            b.op, ast.Add) and isinstance(b.target, ast.Name):
+                        acc.setdefault(b.target.id, [])
+                        acc[b.target.id] += val(b.value)
+                    elif isinstance(b, ast.Expr) and isinstance(
+                            b.value, ast.Call) and isinstance(
+                            b.value.func, ast.Attribute) and \
+                            b.value.func.attr == "append" and isinstance(
+                            b.value.func.value, ast.Name):
+                        acc.setdefault("@" + b.value.func.value.id, [])
+                        acc["@" + b.value.func.value.id] += val(
+                            b.value.args[0])
+                    else:
+                        raise Unknown
+                for k, pieces in acc.items():
+                    if k.startswith("@"):
+                        env[k[1:]] = [("replist", pieces, roles)]
+                    else:
+                        env[k] = env.get(k, []) + [("rep", pieces, roles)]
+            elif isinstance(st, ast.Return):
+                return val(st.value)
+            else:
+                raise Unknown
+        return None
+
+    try:
+        return run(w.node.body)
+    except Unknown:
+        return None
+
+
 def run(prog: Program, res: Result, tier: str) -> None:
     res.rule("X-FORMAT", "xyz_str writes exactly as many header lines as "
              "_from_xyz_stream skips; x, y, z share one fixed-point format "
@@ -38,30 +175,23 @@ def run(prog: Program, res: Result, tier: str) -> None:
     r = geo.methods.get("_from_xyz_stream")
     if not (w and r):
         raise AnalysisError("Geometry.xyz_str / _from_xyz_stream vanished")
-    # header lines: statements outside the atom loop that append text ending
-    # in a newline to the result, counted per path
-    from ..pe import PE
-    pe = PE(w.node, {})
-    outs = pe.run()
-    counts = set()
-    for node in [w.node]:
-        pass
-    # count "\n" contributions before the loop, per branch
-    def nl_count(stmts):
-        total = 0
-        for st in stmts:
-            if isinstance(st, ast.For):
-                break
-            if isinstance(st, ast.If):
-                a, b = nl_count(st.body), nl_count(st.orelse)
-                if a != b:
-                    return -1000
-                total += a
-            elif isinstance(st, (ast.Assign, ast.AugAssign)):
-                total += norm(st.value).count("\\n")
-        return total
-    header = nl_count(w.node.body)
-    skip = None
+    # The returned text as a template: literal pieces, holes and one repeated
+    # per-atom group (text builder evaluated symbolically, any spelling:
+    # += in a loop, "".join(list comprehension), header + body ...)
+    tmpl = _template(w)
+    if tmpl is None:
+        res.unrecognised("X-FORMAT", "text template of xyz_str", w.loc(),
+                         "the string built by xyz_str could not be followed")
+        tmpl = []
+    reps = [p for p in tmpl if p[0] == "rep"]
+    header = 0
+    for p in tmpl:
+        if p[0] == "rep":
+            break
+        if p[0] == "lit":
+            header += p[1].count("\n")
+        elif p[0] == "alt":
+            header = -1000 if header >= 0 else header
     load = None
     for n in ast.walk(r.node):
         if isinstance(n, ast.Call) and call_name(n) in ("np.loadtxt",
@@ -76,43 +206,63 @@ def run(prog: Program, res: Result, tier: str) -> None:
     except Exception:
         skip = None
     inst = f"header lines written ({header}) == skiprows ({skip})"
-    if header == skip and header >= 0:
+    if tmpl and len(reps) == 1 and header == skip:
         res.ok("X-FORMAT", inst, w.loc())
-    else:
+    elif tmpl and len(reps) == 1 and header >= 0 and skip is not None:
         res.bad("X-FORMAT", f"header {header} vs skiprows {skip}", r.loc(load),
                 f"{inst}: the reader skips a different number of lines than "
                 "the writer emits", instance=inst)
-    # coordinate format
-    specs = []
-    for n in ast.walk(w.node):
-        if isinstance(n, ast.FormattedValue) and n.format_spec is not None \
-                and "coords[" in norm(n.value):
-            specs.append((norm(n.value), "".join(
-                v.value for v in n.format_spec.values
-                if isinstance(v, ast.Constant))))
+    elif tmpl:
+        res.unrecognised("X-FORMAT", inst, w.loc(),
+                         f"{len(reps)} repeated groups / branches writing "
+                         "different numbers of lines")
+    # coordinate format: the per-atom group
+    line = reps[0][1] if len(reps) == 1 else []
+    loopvars = reps[0][2] if len(reps) == 1 else {}
+    holes = [p for p in line if p[0] == "hole"]
+    specs = [(norm(h[1]), h[2]) for h in holes
+             if isinstance(h[1], ast.Subscript)
+             and isinstance(h[1].value, ast.Name)
+             and loopvars.get(h[1].value.id) == "coords"]
     inst = f"coordinate fields {specs}"
-    ok = len(specs) == 3 and len({s for _, s in specs}) == 1 and \
-        {v for v, _ in specs} == {"coords[0]", "coords[1]", "coords[2]"}
+    idx = []
+    for h in holes:
+        if (norm(h[1]), h[2]) in specs:
+            try:
+                idx.append(const(h[1].slice))
+            except Exception:
+                idx.append(None)
+    ok = len(specs) == 3 and len({sp for _, sp in specs}) == 1 and \
+        idx == [0, 1, 2]
     if ok:
-        m = re.fullmatch(r"[+ ]?\d*\.(\d+)[fFeE]", specs[0][1])
+        m = re.fullmatch(r"[+ ]?\d*\.(\d+)[fFeE]", specs[0][1] or "")
         ok = bool(m) and int(m.group(1)) >= 8
     if ok:
         res.ok("X-FORMAT", inst, w.loc())
-    else:
+    elif line:
         res.bad("X-FORMAT", f"coordinate format {specs}", w.loc(),
-                f"{inst}: x, y, z must share one fixed-point format with at "
-                "least 8 decimals", instance=inst)
+                f"{inst}: x, y, z (in this order) must share one fixed-point "
+                "format with at least 8 decimals", instance=inst)
     # line layout: symbol x y z separated by blanks, one line per atom
-    lines = [n for n in ast.walk(w.node) if isinstance(n, ast.JoinedStr)]
-    txt = " ".join(norm(n) for n in lines)
     inst = "atom line = symbol, x, y, z, newline"
-    if re.search(r"SYMBOLS\[atom_type\]", txt) and txt.count("\\n") >= 1 and \
-            "zip(self.atom_types, self.coords)" in ast.unparse(w.node):
-        res.ok("X-FORMAT", inst, w.loc())
-    else:
-        res.unrecognised("X-FORMAT", inst, w.loc(),
-                         "per-atom line with SYMBOLS[atom_type] over "
-                         "zip(self.atom_types, self.coords) not found")
+    if line:
+        sym = [h for h in holes if isinstance(h[1], ast.Subscript)
+               and norm(h[1].value) == "SYMBOLS"
+               and isinstance(h[1].slice, ast.Name)
+               and loopvars.get(h[1].slice.id) == "atom_type"]
+        lits = [p[1] for p in line if p[0] == "lit"]
+        shape = "".join("H" if p[0] == "hole" else p[1] for p in line)
+        if len(sym) == 1 and line[0] is sym[0] and re.fullmatch(
+                r"H +H +H +H *\n", shape):
+            res.ok("X-FORMAT", inst, w.loc(), repr(shape))
+        elif len(holes) == 4 and len(sym) == 1:
+            res.bad("X-FORMAT", f"atom line {shape!r}", w.loc(),
+                    f"{inst}: the line is laid out as {shape!r} (H = field)",
+                    instance=inst)
+        else:
+            res.unrecognised("X-FORMAT", inst, w.loc(),
+                             f"per-atom line {shape!r} over zip("
+                             "self.atom_types, self.coords) not recognised")
     # the text reaches the parser as ONE stream: str.splitlines() also splits
     # at \x0b \x0c \x1c-\x1e \x85 \u2028 \u2029, which may occur in a comment
     fx = geo.methods.get("from_xyz")
@@ -208,15 +358,12 @@ def run(prog: Program, res: Result, tier: str) -> None:
     dfd = prog.cls("_DefaultFuncDict").methods.get("array")
     at = ast.unparse(dfd.node)
     inst = "_DefaultFuncDict.array stores every cut-off symmetrically"
-    stores = [(norm(n.targets[0].value.slice), norm(n.targets[0].slice))
-              for n in ast.walk(dfd.node) if isinstance(n, ast.Assign)
-              and isinstance(n.targets[0], ast.Subscript)
-              and isinstance(n.targets[0].value, ast.Subscript)]
-    stores += [tuple(norm(e) for e in n.targets[0].slice.elts)
-               for n in ast.walk(dfd.node) if isinstance(n, ast.Assign)
-               and isinstance(n.targets[0], ast.Subscript)
-               and isinstance(n.targets[0].slice, ast.Tuple)
-               and len(n.targets[0].slice.elts) == 2]
+    tgts = [t for n in ast.walk(dfd.node) if isinstance(n, ast.Assign)
+            for t in n.targets if isinstance(t, ast.Subscript)]
+    stores = [(norm(t.value.slice), norm(t.slice)) for t in tgts
+              if isinstance(t.value, ast.Subscript)]
+    stores += [tuple(norm(e) for e in t.slice.elts) for t in tgts
+               if isinstance(t.slice, ast.Tuple) and len(t.slice.elts) == 2]
     sym = all((b, a) in stores for a, b in stores) and bool(stores)
     if sym and "combinations(" in at:
         res.ok("X-CONN", inst, dfd.loc())
